@@ -69,6 +69,9 @@ def run_bounds(pid, tier):
                       + st["violation"]["invariant"], {"tlc": st["violation"]["text"][:3000]})
     cov["states"] += st["distinct"]; cov["transitions"] += st["generated"]
     cov["tlc"].append({k: st[k] for k in ("module", "cfg", "depth", "wall_s")}); cov["checker_cmd"] += st["cmd"] + " ; "
+    # ---- 1b. the same run checks that Pyxis.tla refines LoopAbs.tla (PROPERTY RefinesLoopAbs, INVARIANT LoopAbsInv);
+    #          the pass bound of LoopAbs is proved for worklists of any size with TLAPS
+    cov["tlaps"] = tlaps_proofs()
     # ---- 2. the generated spaces
     spaces = [("MC_Bounds", {"quick": ["MC_Bounds_q1.cfg"], "thorough": ["MC_Bounds_q1.cfg"]}, "bounds", 4),
               ("MC_Layout", {"quick": ["MC_Layout_q3.cfg"], "thorough": ["MC_Layout_q3.cfg", "MC_Layout_t3.cfg"]}, "bounds-layout", 8),
@@ -126,6 +129,24 @@ def run_bounds(pid, tier):
     res.assumptions = ["arbitrary byte strings are outside the specification: covered are grammar-directed mutations of printed modules",
                        "a vftable #[size(N)] may allocate N slots (memory proportional to what the input asks for)"]
     return res.finish()
+
+
+def tlaps_proofs():
+    """tlapm on spec/LoopAbsProofs.tla; a failing or unavailable prover is a tool error (the proof is about the
+    abstract specification only, it cannot be a violation of pyxis)."""
+    import re, shutil
+    from .common import SPEC, ToolError
+    d = fresh_dir("run", "tlaps")
+    for f in ("LoopAbs.tla", "LoopAbsProofs.tla"):
+        shutil.copy(os.path.join(SPEC, f), d)
+    t = time.time()
+    p = subprocess.run(["timeout", "900", "tlapm", "--threads", "8", "--cache-dir", os.path.join(d, "cache"), "LoopAbsProofs.tla"],
+                       cwd=d, stdout=subprocess.PIPE, stderr=subprocess.STDOUT, text=True)
+    m = re.search(r"All (\d+) obligations proved", p.stdout)
+    if not m:
+        raise ToolError("tlapm did not prove LoopAbsProofs.tla: " + p.stdout[-600:])
+    return {"module": "LoopAbsProofs", "obligations_proved": int(m.group(1)), "wall_s": round(time.time() - t, 1),
+            "theorems": ["InvHolds", "Bounded: passes <= |first worklist| + X + 1"]}
 
 
 def check_parse_positions(pl):
